@@ -44,7 +44,7 @@ FINDING_INPUTS = [
     'Y = 1/0', 'Y = CANARY()', '```\nCANARY()\n```', 'Y = print(1)', 'Y = {0}', 'Y = {}', 'Y = {{X}}', 'Y = { }',
     'Y = {[0]}', '1 = X', 'log = log(X)', 'Y = X\n```\nZ = W', '```', '(\n```\ny\n```\n)', 'as[1] = X', '{a} = X',
     '<e> = X', '`a` = X', '(Y X = Z)', 'Y = 1()', 'Y = X\nY = X', 'Y = X +', 'Y = X\n)', '  Y = X', 'Y = (X',
-    'Y = {X', 'if = X', 'Y = X[a]', 'Y = in[1]', '```\n(\n```\nY = X\n)', 'Y = max(X, 0)\nmax = 2', 'Y == X',
+    'Y = {X', 'if = X', 'Y = X[a]', 'Y = in[1]', '```\n(\n```\nY = X\n)', 'Y = max(X, 0)\nmax = 2', 'Y == X', '```\ns (= 1\n```\nY = X)',
 ]
 
 
@@ -251,6 +251,7 @@ def run(ctx, rep):
     for first in range(0, n_mut, 100):
         tasks.append(('c13:mutants', (f'{ctx.seed}:mut', first, min(100, n_mut - first), oo)))
     tasks.append(('c13:texts', ('findings', FINDING_INPUTS, False, False, oo)))
+    tasks.append(('c13:texts', ('findings-wellformed', ['T = log(-(0.5 + 2))', 'Y = exp(-(1 + 2)) * X'], True, True, oo)))
     if not oo:
         tasks.append(('c13:aux', (0x3100 if quick else 0x110000, 5 if quick else 6)))
     ts.run_pool(ctx, rep, tasks)
